@@ -6,6 +6,7 @@
 set -u
 export GOFLAGS=-mod=mod GOPROXY=off GOSUMDB=off GOTOOLCHAIN=local
 patch=$(readlink -f "$1"); shift
+V=$(cd "$(dirname "$0")/.." && pwd)
 WT=/tmp/wt/mut.$$
 git -C /repo worktree add -q --detach "$WT" HEAD || exit 3
 trap 'git -C /repo worktree remove --force "$WT" >/dev/null 2>&1; rm -rf /tmp/mutverif.$$' EXIT
@@ -14,9 +15,9 @@ if [ "${SKIP_TESTS:-0}" != 1 ]; then
   if (cd "$WT" && go build ./... && go test -vet=off -count=1 ./... >/tmp/mut.$$.test 2>&1); then echo "suite: PASS"; else echo "suite: FAIL"; tail -5 /tmp/mut.$$.test; fi
   rm -f /tmp/mut.$$.test
 fi
-mkdir -p /tmp/mutverif.$$; cp /verif/known_findings.json /tmp/mutverif.$$/
+mkdir -p /tmp/mutverif.$$; cp $V/known_findings.json /tmp/mutverif.$$/
 for id in "$@"; do
-  out=$(VERIF_REPO="$WT" VERIF_DIR=/tmp/mutverif.$$ /verif/run.sh check "$id" ${TIER:-quick} 2>&1); rc=$?
+  out=$(VERIF_REPO="$WT" VERIF_DIR=/tmp/mutverif.$$ $V/run.sh check "$id" ${TIER:-quick} 2>&1); rc=$?
   nv=$(echo "$out" | grep -c '^VIOLATION')
   echo "check $id: exit=$rc violations_lines=$nv"
   echo "$out" | grep -A1 '^VIOLATION' | head -${SHOW:-4} | cut -c1-300
